@@ -97,6 +97,21 @@ MUTANTS = [
     m("C06-lazy-args", "C06", "lazy-inverse@IterativeOperatorWInfo._matmat", "cola/linalg/algorithm_base.py", "Y, self.info = self.alg(self.A, X)", "Y, self.info = self.alg(X, self.A)"),
     m("C06-lstsq-shape", "C06", "inverse-rule@LSTSQSolve.__init__:shape", PINV, "super().__init__(A.dtype, (A.shape[-1], A.shape[-2]))", "super().__init__(A.dtype, (A.shape[-2], A.shape[-1]))"),
     m("C06-pinv-diag", "C06", "inverse-rule@pinv(Diagonal,Algorithm)", PINV, "def pinv(A: Diagonal, alg: Algorithm):\n    return Diagonal(1. / A.diag)", "def pinv(A: Diagonal, alg: Algorithm):\n    return Diagonal(A.diag)"),
+    # ---------------------------------------------------------------- C07
+    m("C07-kron-exponent", "C07", "rule-algebra@slogdet(Kronecker", LOGDET, "scaled_logdets = [logdets[i] * prod / sizes[i] for i in range(len(sizes))]", "scaled_logdets = [logdets[i] * sizes[i] for i in range(len(sizes))]"),
+    m("C07-kron-sign-parity", "C07", "rule-algebra@slogdet(Kronecker", LOGDET, "scaled_signs = [signs[i]**(prod / sizes[i]) for i in range(len(sizes))]", "scaled_signs = [signs[i]**((prod // sizes[i]) % 2) for i in range(len(sizes))]"),
+    m("C07-silent-kron-floordiv", "C07", "", LOGDET, "scaled_logdets = [logdets[i] * prod / sizes[i] for i in range(len(sizes))]", "scaled_logdets = [logdets[i] * (prod // sizes[i]) for i in range(len(sizes))]", silent=True),
+    m("C07-blockdiag-mult", "C07", "rule-algebra@slogdet(BlockDiag", LOGDET, "scaled_logdets = sum(ld * n for ld, n in zip(logdets, A.multiplicities))", "scaled_logdets = sum(ld for ld, n in zip(logdets, A.multiplicities))"),
+    m("C07-scalar-size", "C07", "rule-algebra@slogdet(ScalarMul", LOGDET, "return phase**n, n * xnp.log(xnp.abs(c))", "return phase, xnp.log(xnp.abs(c))"),
+    m("C07-diag-logabs", "C07", "rule-algebra@slogdet(Diagonal", LOGDET, "    mag = xnp.abs(A.diag)\n    phase = A.diag / mag\n    return xnp.prod(phase), xnp.sum(xnp.log(mag))", "    mag = xnp.abs(A.diag)\n    phase = A.diag / mag\n    return xnp.prod(phase), xnp.abs(xnp.sum(xnp.log(mag)))"),
+    m("C07-triangular-phase", "C07", "rule-algebra@slogdet(Triangular", LOGDET, "    diag = xnp.diag(A.A)\n    mag = xnp.abs(diag)\n    phase = diag / mag\n    return xnp.prod(phase), xnp.sum(xnp.log(mag))",
+      "    diag = xnp.diag(A.A)\n    mag = xnp.abs(diag)\n    phase = diag / mag\n    return xnp.sum(phase), xnp.sum(xnp.log(mag))"),
+    m("C07-cholesky-factor2", "C07", "rule-algebra@slogdet(LinearOperator,Cholesky", LOGDET, "return sign * A.xnp.conj(sign), 2 * logdet", "return sign * A.xnp.conj(sign), logdet"),
+    m("C07-lu-order", "C07", "rule-algebra@slogdet(LinearOperator,LU", LOGDET, "return slogdet(P @ L @ U, log_alg, trace_alg)", "return slogdet(L @ U, log_alg, trace_alg)"),
+    m("C07-product-sum", "C07", "rule-algebra@slogdet(Product", LOGDET, "    return product(signs), sum(logdets)\n\n\n@dispatch\ndef slogdet(A: Identity", "    return product(signs), product(logdets)\n\n\n@dispatch\ndef slogdet(A: Identity"),
+    m("C07-logdet-component", "C07", "logdet@logdet", LOGDET, "_, ld = slogdet(A, log_alg=log_alg, trace_alg=trace_alg)\n    return ld", "ld, _ = slogdet(A, log_alg=log_alg, trace_alg=trace_alg)\n    return ld"),
+    m("C07-logdet-swaps-algs", "C07", "forwarded@logdet", LOGDET, "_, ld = slogdet(A, log_alg=log_alg, trace_alg=trace_alg)", "_, ld = slogdet(A, log_alg=trace_alg, trace_alg=log_alg)"),
+    m("C07-auto-cholesky-nonpsd", "C07", "auto-rule@slogdet(LinearOperator,Auto,Algorithm):guard-implication", LOGDET, "    elif not is_PSD and small:\n        log_alg = LU()", "    elif not is_PSD and small:\n        log_alg = Cholesky()"),
     # ---------------------------------------------------------------- C09
     m("C09-eig-uses-adjoint", "C09", "dense-path@apply_unary(Callable,LinearOperator,Eig)", UNARY, "return V @ D @ inv(V)", "return V @ D @ V.H"),
     m("C09-eigh-transpose", "C09", "dense-path@apply_unary(Callable,LinearOperator,Eigh)", UNARY, "return V @ D @ V.H", "return V @ D @ V.T"),
